@@ -441,7 +441,7 @@ impl<K: KeyT> SetWorld<K> {
             Kd::Get | Kd::GetView | Kd::ContainsKey => self.op_lookup(si, op)?,
             Kd::Remove | Kd::Take | Kd::RemoveView => self.op_remove(si, op)?,
             Kd::Entry => self.op_entry(si, op)?,
-            Kd::Extend | Kd::FromIter => self.op_extend(si, op)?,
+            Kd::Extend | Kd::ExtendRef | Kd::FromIter => self.op_extend(si, op)?,
             Kd::Clear => self.op_clear(si, op)?,
             Kd::Reserve | Kd::ShrinkTo | Kd::ShrinkToFit => self.op_capacity(si, op)?,
             Kd::TryReserve => self.op_try_reserve(si, op)?,
@@ -877,6 +877,15 @@ impl<K: KeyT> SetWorld<K> {
         Ok(())
     }
 
+    fn pod_set(s: &mut SSet<K>) -> Option<&mut SSet<crate::elem::PodKey>> {
+        if std::any::TypeId::of::<K>() == std::any::TypeId::of::<crate::elem::PodKey>() {
+            // SAFETY: the two types are the same type
+            Some(unsafe { &mut *(s as *mut SSet<K> as *mut SSet<crate::elem::PodKey>) })
+        } else {
+            None
+        }
+    }
+
     fn op_extend(&mut self, si: usize, op: &Op) -> VResult {
         let ids: Vec<u32> = op.v.chunks(2).map(|c| c[0] as u32 % K::UNIVERSE).collect();
         if op.k == Kd::FromIter && op.b == 1 && op.f.is_none() && self.ctx.functional() && self.ctx.cfg.eq_mode == crate::state::EqMode::Lawful && matches!(ids.len(), 0..=5 | 8) {
@@ -889,7 +898,14 @@ impl<K: KeyT> SetWorld<K> {
         fc.arg_serials = toks.iter().map(|t| t.1).collect();
         fc.multi = true;
         let src = SimSource { items: items.into_iter(), hint: if op.a < 0 { None } else { Some(op.a as usize) } };
-        let out = if op.k == Kd::Extend {
+        let out = if op.k == Kd::ExtendRef && Self::pod_set(self.slots[si].set.as_mut().unwrap()).is_some() {
+            // `Extend<&T>` exists for `Copy` elements only
+            sim().probe(Probe::ExtendByRef);
+            drop(src);
+            let pod: Vec<crate::elem::PodKey> = ids.iter().map(|&i| crate::elem::PodKey(i)).collect();
+            let s = Self::pod_set(self.slots[si].set.as_mut().unwrap()).unwrap();
+            self.ctx.call(op, || s.extend(pod.iter()))
+        } else if op.k != Kd::FromIter {
             let s = self.slots[si].set.as_mut().unwrap();
             self.ctx.call(op, || s.extend(src))
         } else {
@@ -1438,9 +1454,7 @@ impl<K: KeyT> SetWorld<K> {
     }
 
     fn op_pred(&mut self, si: usize, ti: usize, op: &Op) -> VResult {
-        if si == ti {
-            return Ok(());
-        }
+        // (also of a set with itself: is_subset/is_superset/== are true, is_disjoint is true only for the empty set)
         let which = if op.k == Kd::EqSlots { 3 } else { op.a.rem_euclid(4) };
         let fc = self.fctx(si, op);
         self.note_sizes(si, ti);
@@ -1471,10 +1485,7 @@ impl<K: KeyT> SetWorld<K> {
 
     fn op_setop(&mut self, si: usize, ti: usize, op: &Op) -> VResult {
         // a: 0 union, 1 intersection, 2 difference, 3 symmetric_difference (iterators, driven by plan v)
-        //    4..7 the same through the operators | & - ^ (a new set)
-        if si == ti {
-            return Ok(());
-        }
+        //    4..7 the same through the operators | & - ^ (a new set); both operands may be the same set
         let which = op.a.rem_euclid(8);
         let plan = IterPlan::from_v(&op.v);
         let fc = self.fctx(si, op);
